@@ -42,6 +42,23 @@ fn inputs(tier: &str) -> Vec<Input> {
         c.files.push(("zz-unused2.xsd".into(), crate::schema::print_xsd(&extra.files[0]).replace("Unused", "Unused2")));
         v.push(Input { label: "gen:unreferenced-siblings".into(), case: c });
     }
+    // a type whose members come from two namespaces other than its own (three-file extension chain)
+    if let Some(st) = super::c08::three_namespace_chains("quick").into_iter().find(|s| s.depth == 2 && s.label.contains("T0[alpha] <- T1[beta] <- T2[gamma]")) {
+        v.push(Input { label: "gen:members-of-two-foreign-namespaces".into(), case: st.set.to_case() });
+    }
+    // an import WITHOUT schemaLocation of a namespace that two registered siblings declare (different
+    // content): it contributes nothing, whatever the order in which the siblings were registered
+    {
+        let mut set = crate::seeds::s0();
+        const NS_X: &str = "http://zv.example/extra";
+        set.files[0].imports.push(crate::schema::Import { ns: NS_X.into(), loc: None });
+        let mut c = set.to_case();
+        for (n, ty) in [("x1.xsd", "ExtraOne"), ("x2.xsd", "ExtraTwo")] {
+            let f = crate::schema::XsdFile { name: n.into(), tns: NS_X.into(), prefixes: vec![("x".into(), NS_X.into())], default_ns: None, imports: vec![], comps: vec![crate::seeds::complex(ty, vec![crate::seeds::el("V", crate::schema::TypeRef::b("string"))])] };
+            c.files.push((n.into(), crate::schema::print_xsd(&f)));
+        }
+        v.push(Input { label: "gen:location-less-import-with-two-candidate-siblings".into(), case: c });
+    }
     // a sibling whose NAME differs from an imported file's only in letter case (different content)
     {
         let mut c = crate::seeds::s0().to_case();
